@@ -20,7 +20,7 @@ EXPLANATION = (
     " C10.4 also covers seal_opt = encrypt_to_recipient(sign_opt(self, sender, options), recipient). C10.9: add_recipient* never returns self on a test of the receiver.")
 TRUSTED = ['SealedMessage::new_opt seals its plaintext to the given public key; SealedMessage::decrypt opens only with the matching private key',
            'SymmetricKey::new() draws a fresh random key']
-FLOORS = {'C10.1': 3, 'C10.2': 2, 'C10.3': 3, 'C10.4': 5, 'C10.8': 5, 'C10.9': 1}
+FLOORS = {'C10.1': 5, 'C10.2': 2, 'C10.3': 3, 'C10.4': 5, 'C10.8': 5, 'C10.9': 1}
 P1, P2, P3, P4 = [('param', i) for i in range(1, 5)]
 
 
@@ -92,6 +92,24 @@ def check(ctx):
             ctx.ok('C10.1', ctx.site(single), 'single-recipient form = multi-recipient form over [recipient]')
         else:
             ctx.fail('C10.1', ctx.site(single), 'single-recipient form is %s' % fmt(rt), key='C10.1|single')
+    # the forms without a test nonce have no key handling of their own: each is, on every path, the `_opt` form (or its sibling) over the
+    # receiver and the caller's recipient(s)
+    for nm in ('encrypt_subject_to_recipients', 'encrypt_subject_to_recipient'):
+        w = F.method1('Envelope', nm)
+        if w is None:
+            ctx.lost('C10.1', 'Envelope::' + nm)
+            continue
+        rt = strip_sites(TermBuilder(F, w).return_term())
+        c = callee_of(rt) if rt[0] == 'call' else None
+        good = (c is not None and c.name != nm and c.name in ('encrypt_subject_to_recipients_opt', 'encrypt_subject_to_recipient_opt', 'encrypt_subject_to_recipients',
+                                                             'encrypt_subject_to_recipient')
+                and len(rt[2]) >= 2 and strip_sites(rt[2][0]) == P1
+                and (strip_sites(rt[2][1]) == P2 or (strip_sites(rt[2][1])[0] in ('array', 'list') and tuple(strip_sites(z) for z in strip_sites(rt[2][1])[1]) == (P2,)))
+                and not any(contains(a_, lambda y: y[0] == 'param') for a_ in rt[2][2:]))
+        if good:
+            ctx.ok('C10.1', ctx.site(w), '%s = %s(self, the caller\'s recipient(s), no test nonce)' % (nm, c.name), nontrivial=False)
+        else:
+            ctx.fail('C10.1', ctx.site(w), '%s handles keys or recipients on its own instead of being the checked form: returns %s' % (nm, fmt(rt)[:220]), key='C10.1|wrapper|' + nm)
     # ---- C10.2 reader
     r = F.method1('Envelope', 'recipients')
     if r is None:
